@@ -114,4 +114,12 @@ def obligations(tier, seed=0):
                 obs.append((FE + 'near_point', dict(fn=fn, prec=4, rnd=rnd, sign=sign, bc=7)))      # argument longer than prec
             obs.append((FE + 'near_point', dict(fn='log1', prec=6, rnd=rnd, sign=sign, bc=3, k=40)))
             obs.append((FE + 'near_point', dict(fn='log1', prec=4, rnd=rnd, sign=sign, bc=7, k=45)))
+            # between the shortcut and the range where the series resolves the deviation (the real series code runs symbolically)
+            for prec, mag in ((8, -22), (8, -25), (8, -15), (8, -14), (24, -22), (24, -23), (24, -30)):
+                obs.append((FE + 'near_point', dict(fn='atan', prec=prec, rnd=rnd, sign=sign, bc=3, mag=mag)))
+            for prec, mag, bc in ((16, -15, 1), (16, -13, 2), (24, -23, 1), (24, -22, 1), (24, -20, 3), (24, -14, 3)):
+                obs.append((FE + 'near_point', dict(fn='exp1', prec=prec, rnd=rnd, sign=sign, bc=bc, mag=mag)))
+            # atan2 for finite nonzero arguments relative to the contracts of its kernels
+            for xs in (0, 1):
+                obs.append((FE + 'atan2_directed', dict(prec=6, rnd=rnd, xsign=xs, ysign=sign)))
     return obs
